@@ -993,6 +993,121 @@ def run_chains(ctx, mats, solids):
     ctx.count("model requests (chained links)", len(req))
 
 
+def alias_case(seed, mats, solids, fail):
+    """ALIASED inputs: the same number-density dict object given to several components (through
+    setNumberDensities and through p.numberDensities) and the same material object given to two components; then
+    setTemperature / changeNDensByFactor on ONE of them: every other component and the caller's dict stay as they
+    were.  Returns correspondence rows (each component follows only its own temperature history)."""
+    import random
+
+    from armi.reactor import components
+
+    rng = random.Random(seed)
+    a = rng.choice(solids)
+    info = mats[a]
+    t = gen_temps(rng, info["lo"], info["hi"], 6)
+    rows = []
+    with common.quiet():
+        shared_mat = info["cls"]()
+        c1 = components.Circle("c1", info["cls"](), t[0], t[1], od=1.0, id=0.5, mult=3.0)
+        c2 = components.Circle("c2", info["cls"](), t[0], t[1], od=1.25, id=0.25, mult=1.0)
+        c3 = components.Hexagon("c3", info["cls"](), t[0], t[1], op=4.0, ip=3.0, mult=1.0)
+        m1 = components.Circle("m1", shared_mat, t[0], t[1], od=1.0, id=0.0, mult=1.0)
+        m2 = components.Circle("m2", shared_mat, t[0], t[2], od=2.0, id=1.0, mult=1.0)     # same material OBJECT
+    base = dict(c1.getNumberDensities())
+    if not base or not any(base.values()):
+        return rows
+    mode = rng.choice(["setNumberDensities", "p.numberDensities", "updateNumberDensities"])
+    shared = {n: v * 1.5 for n, v in base.items()}
+    caller_copy = dict(shared)
+    with common.quiet():
+        for c in (c1, c2, c3):
+            if mode == "setNumberDensities":
+                c.setNumberDensities(shared)
+            elif mode == "updateNumberDensities":
+                c.updateNumberDensities(shared)
+            else:
+                c.p.numberDensities = shared
+    comps = {"c1": c1, "c2": c2, "c3": c3, "m1": m1, "m2": m2}
+    temps_now = {k: float(c.temperatureInC) for k, c in comps.items()}
+
+    def state():
+        return {k: (dict(c.getNumberDensities()), float(c.getDimension("od" if k != "c3" else "op")), float(c.getArea()))
+                for k, c in comps.items()}
+
+    script = [("c1", "setTemperature", t[3]), ("c2", "changeNDensByFactor", 0.5), ("m1", "setTemperature", t[4]),
+              ("c3", "setTemperature", t[5]), ("c1", "setTemperature", t[2]), ("m2", "setTemperature", t[3])]
+    for (who, op, arg) in script:
+        before = state()
+        pct_prev = float(comps[who].material.linearExpansionPercent(Tc=temps_now[who]))
+        with common.quiet():
+            if op == "setTemperature":
+                comps[who].setTemperature(arg)
+            else:
+                comps[who].changeNDensByFactor(arg)
+        after = state()
+        extra = {"aliasing": mode, "acted_on": who, "op": op, "arg": arg}
+        if shared != caller_copy and mode != "p.numberDensities":
+            fail("caller-dict-mutated", "the dict passed to setNumberDensities/updateNumberDensities is not mutated later",
+                 {n: shared[n] for n in list(shared)[:2]}, {n: caller_copy[n] for n in list(shared)[:2]}, extra)
+        for k in comps:
+            if k == who:
+                continue
+            if after[k] != before[k]:
+                fail("aliased-component-changed", "changing the temperature / densities of one component leaves every other "
+                     "component (sharing its input dict or material object) unchanged",
+                     [list(after[k][0].values())[:2], after[k][1]], [list(before[k][0].values())[:2], before[k][1]],
+                     dict(extra, other=k))
+        # the component acted on follows its own history (model: one step of runPath on its own densities)
+        names = sorted(before[who][0])
+        if op == "setTemperature":
+            pct_new = float(comps[who].material.linearExpansionPercent(Tc=arg))
+            temps_now[who] = float(arg)
+            rows.append((f"path {ratlist([pct_prev, pct_new])} {ratlist([before[who][0][n] for n in names])}",
+                         dict(extra, check="acted-on densities"), [after[who][0][n] for n in names]))
+            f_exp = ((100.0 + pct_prev) / (100.0 + pct_new)) ** 2
+            for n in names:
+                if before[who][0][n] and relerr(after[who][0][n] / before[who][0][n], f_exp) > TOL:
+                    fail("number-density-path", "setTemperature scales the component's own densities by (p(T0)/p(T))^2",
+                         after[who][0][n], before[who][0][n] * f_exp, extra)
+                    break
+        else:
+            for n in names:
+                if relerr(after[who][0][n], before[who][0][n] * arg) > TOL and before[who][0][n]:
+                    fail("scale-own-densities", "changeNDensByFactor scales the component's own densities", after[who][0][n],
+                         before[who][0][n] * arg, extra)
+                    break
+    return rows
+
+
+def run_aliasing(ctx, mats, solids):
+    n = ctx.pick(30, 300)
+    req, chk = [], []
+    for rep in range(n):
+        seed = ctx.rng.getrandbits(40)
+        case = {"alias": True, "seed": seed}
+        fails = []
+        rows = alias_case(seed, mats, solids, lambda *a: fails.append(a))
+        for key, clause, obs, exp, extra in fails:
+            ctx.fail(key, clause, dict(case, **extra), observed=obs, expected=exp)
+        ctx.case(("alias", seed), nontrivial=True)
+        for line, extra, val in rows:
+            req.append(line)
+            chk.append((dict(case, **extra), val))
+    model = lean_run("Thermal", req)
+    for line, (c, val) in zip(model, chk):
+        try:
+            qs = [common.unrat(x) for x in common.parse_list(line)]
+        except Exception:
+            ctx.disagree("Thermal.runPath vs setTemperature (aliased inputs)", c, line, val)
+            continue
+        if len(qs) != len(val) or any(not common.close(v, q, TOL) and relerr(v / float(q), 1.0) > TOL for v, q in zip(val, qs) if q):
+            ctx.disagree("Thermal.runPath vs setTemperature (aliased inputs)", c, [float(q) for q in qs], val)
+    ctx.evaluations += len(req)
+    ctx.count("aliasing cases", n)
+    ctx.count("model requests (aliasing)", len(req))
+
+
 def derived_case(seed, mats, solids, fail, count):
     """A hex block with a derived (left-over) coolant between expanding solids; returns correspondence rows."""
     import random
@@ -1149,11 +1264,13 @@ def run(ctx):
     run_links(ctx, mats, solids)
     run_derived(ctx, mats, solids)
     run_chains(ctx, mats, solids)
+    run_aliasing(ctx, mats, solids)
     ctx.rule = ("full cross product: every 2-D shape class (11 + unshaped) x every solid material class with an expansion "
                 "correlation x seeded histories (1-8 temperatures inside the validity range, incl. start at the input "
                 "temperature and revisits); every solid class without a correlation and every fluid/Custom class x shapes; "
                 "seeded linked-dimension configurations (pin, duct, link-to-link, liner; also read at a given Tc); chained links A->B->C and 3-hop chains whose middle is replaced by a value, "
-                "hot-set and re-linked between temperature changes, judged against the declared targets; hex blocks with a "
+                "hot-set and re-linked between temperature changes, judged against the declared targets; components given the "
+                "SAME number-density dict object / the same material object, then heated or scaled one at a time; hex blocks with a "
                 "derived (left-over) coolant between expanding solids. distinct = (shape, material, history "
                 "index) / (config, seed); all non-trivial (real setTemperature/getDimension/getArea calls compared with the "
                 "model and judged by the oracle).")
@@ -1211,6 +1328,16 @@ def search(ctx, disagreements, broken):
                 return out
     for d in disagreements:
         c = d.case if isinstance(d.case, dict) else {}
+        if c.get("alias"):
+            fails = []
+            try:
+                alias_case(c["seed"], mats, solids, lambda *a: fails.append(a))
+            except Exception:
+                continue
+            for key, clause, obs, exp, extra in fails:
+                out.append(Failure(key, clause, dict(alias=True, seed=c["seed"], **extra), observed=obs, expected=exp))
+    for d in disagreements:
+        c = d.case if isinstance(d.case, dict) else {}
         if c.get("chain"):
             fails = []
             try:
@@ -1245,6 +1372,13 @@ def search(ctx, disagreements, broken):
 
 def replay(ctx, payload):
     case, key = payload["case"], payload["key"]
+    if case.get("alias"):
+        mats = classify_materials(ctx)
+        solids = [n for n, i in mats.items() if i["kind"] == "solid" and i.get("has_nd")]
+        fails = []
+        alias_case(case["seed"], mats, solids, lambda *a: fails.append(a))
+        hit = [f for f in fails if f[0] == key]
+        return {"observed": hit[0][2], "expected": hit[0][3]} if hit else None
     if case.get("chain"):
         mats = classify_materials(ctx)
         solids = [n for n, i in mats.items() if i["kind"] == "solid" and i.get("has_nd")]
